@@ -5,7 +5,7 @@ cd "$(dirname "$0")" || exit 2
 for d in seeded/*/; do
   id=$(basename "$d")
   prop=$(/venv/bin/python -c "import json;print(json.load(open('$d/meta.json'))['property'])")
-  out=$(./seedtest.sh "$d/patch.diff" "$prop" 2>&1)
+  out=$(./seedtest.sh "$(pwd)/$d/patch.diff" "$prop" 2>&1)
   if echo "$out" | grep -q '^VIOLATION'; then v=DETECTED; elif echo "$out" | grep -q BROKEN; then v=BROKEN; else v=MISSED; fi
   echo "$id $prop $v"
 done
